@@ -373,6 +373,9 @@ def write_scsv_header(stream, schema, comments=None):
             stream.write(f"      unit: {unit}{os.linesep}")
         if "fill" in field:
             fill = field["fill"]
+            if kind == "string":
+                # Quote, otherwise YAML re-types fills like '', 'null', 'no' or '042'.
+                fill = "'" + str(fill).replace("'", "''") + "'"
             stream.write(f"      fill: {fill}{os.linesep}")
     stream.write("---" + os.linesep)
 
